@@ -225,6 +225,69 @@ func c15FlagPairs(r *run.Run) {
 		})
 }
 
+// c15FindLookupsBytes: language systems as they come out of a file: the list of optional features may
+// contain the index 0xFFFF (which the reader skips); only the features that are listed are selected.
+func c15FindLookupsBytes(r *run.Run) {
+	idx := []int{0, 1, 0xFFFF}
+	r.Explore(explore.Config{Name: "C15.findlookups-bytes"},
+		"GSUB tables assembled byte by byte: one default language system with required feature in {none, 0, 1} and every list of <= 3 optional feature indices over {0, 1, 0xFFFF} (0xFFFF is skipped by the reader), two features with one lookup each: gtab.Read + FindLookups with both features enabled selects exactly the lookups of the required and the listed features",
+		func(c *explore.Ctx) {
+			req := []int{0xFFFF, 0, 1}[c.Choose(3, "required feature")]
+			n := c.Choose(4, "optional features")
+			var opt []int
+			for i := 0; i < n; i++ {
+				opt = append(opt, idx[c.Choose(len(idx), "feature index")])
+			}
+			// header; script list at 10
+			langSys := be16(0, req, len(opt))
+			langSys = append(langSys, be16(opt...)...)
+			scriptTable := append(be16(4, 0), langSys...) // default LangSys at offset 4, no further languages
+			scriptList := append(append(be16(1), []byte("DFLT")...), be16(8)...)
+			scriptList = append(scriptList, scriptTable...)
+			feature := func(lookup int) []byte { return be16(0, 1, lookup) }
+			featureList := append(be16(2), []byte("aaaa")...)
+			featureList = append(featureList, be16(14)...)
+			featureList = append(featureList, []byte("bbbb")...)
+			featureList = append(featureList, be16(20)...)
+			featureList = append(featureList, feature(0)...)
+			featureList = append(featureList, feature(1)...)
+			single := func(gid, delta int) []byte { // lookup type 1, one subtable of format 1 with a one-glyph coverage
+				return append(be16(1, 0, 1, 8), be16(1, 6, delta, 1, 1, gid)...)
+			}
+			l0, l1 := single(1, 1), single(2, 1)
+			lookupList := append(be16(2, 6, 6+len(l0)), append(l0, l1...)...)
+			hdr := be16(1, 0, 10, 10+len(scriptList), 10+len(scriptList)+len(featureList))
+			data := append(append(append(hdr, scriptList...), featureList...), lookupList...)
+			desc := fmt.Sprintf("required %#x, optional %v", req, opt)
+			c.Sample(func() any { return desc })
+			c.Outcome(desc)
+			info, err := gtab.Read(bytes.NewReader(data), gtab.TypeGsub)
+			if err != nil {
+				c.Fail("C15.findlookups", "bytes / read", "gtab.Read rejects the assembled table: %v (%s)", err, desc)
+				return
+			}
+			c.Nontrivial()
+			want := map[gtab.LookupIndex]bool{}
+			if req != 0xFFFF {
+				want[gtab.LookupIndex(req)] = true
+			}
+			for _, k := range opt {
+				if k != 0xFFFF {
+					want[gtab.LookupIndex(k)] = true
+				}
+			}
+			var wl []gtab.LookupIndex
+			for k := range want {
+				wl = append(wl, k)
+			}
+			sort.Slice(wl, func(i, j int) bool { return wl[i] < wl[j] })
+			got := info.FindLookups(language.Und, map[string]bool{"aaaa": true, "bbbb": true})
+			if fmt.Sprint(got) != fmt.Sprint(wl) {
+				c.Fail("C15.findlookups", "bytes / selection", "FindLookups selects %v, the language system lists the features of lookups %v (%s)", got, wl, desc)
+			}
+		})
+}
+
 func c15Layout(r *run.Run) {
 	alphabet := []rune{'f', 'i', 'A', 'B', 'Z', 0x1F600}
 	maxLen := 3
@@ -677,6 +740,7 @@ func init() {
 		c15CmapSelection(r)
 		c15Ligatures(r)
 		c15FindLookups(r)
+		c15FindLookupsBytes(r)
 		c15Kern(r)
 		c15FlagPairs(r)
 		c15MapOrderFind(r)
